@@ -8,7 +8,7 @@ API = "api::actor::RpcActor::"
 PROTO = "api::protocol::"
 
 
-def eval_handler(f, handler, req_adt, fail=None):
+def eval_handler(f, handler, req_adt, fail=None, extra_args=()):
     """returns (rendered result, [(call(args), ok|err)]) for handler `handler`; `fail` = name of the forwarded method that fails"""
     from . import feval as E
     log = []
@@ -21,9 +21,16 @@ def eval_handler(f, handler, req_adt, fail=None):
                 return E.Tok("fw.%s(%s)" % (name, ",".join(it.tokname(a).strip("&*") for a in args[1:])))
             if name == "new" and "RpcError" in path + (t["f"].get("full") or ""):
                 return E.Tok("rpc-error")
+            if name == "send" and args and it.tokname(args[0]).strip("&*") == "reply":
+                log.append(("reply.send(%s)" % E.describe(it.resolve(args[1]), f), "ok"))
+                return E.Tok("reply-sent(%d)" % len(log))
+            if name == "clone" and args and it.tokname(args[0]).strip("&*") == "reply":
+                return args[0]
             if name == "deref" and args:
                 return args[0]
             return None
+        if kind == "await" and str(name).startswith("reply-sent("):
+            return E.Ok(E.UNIT)
         if kind == "await" and name.startswith("fw."):
             m = name[3:]
             meth = m.split("(")[0]
@@ -34,7 +41,7 @@ def eval_handler(f, handler, req_adt, fail=None):
     fields = [x["name"] for x in f.adt(PROTO + req_adt)["variants"][0]["fields"]]
     req = E.struct(f, PROTO + req_adt, **{n: E.Tok("req.%s" % n) for n in fields})
     try:
-        out, hp, ev = E.run_async(f, API + handler, [E.href("self"), req], {"self": E.Tok("rpc-actor")}, oracle, inline=tuple(p for p in f.bodies if p.startswith(API)))
+        out, hp, ev = E.run_async(f, API + handler, [E.href("self"), req] + [E.Tok(x) for x in extra_args], {"self": E.Tok("rpc-actor")}, oracle, inline=tuple(p for p in f.bodies if p.startswith(API)))
         return E.describe(out, f), log
     except E.Unsupported as e:
         return "UNSUPPORTED-FORM: %s" % e, log
@@ -77,3 +84,89 @@ def check_forwarder(ctx, rule, handler, req_adt, steps, answer=None, strict=True
                 problems.append("%s failed but the handler answers %s" % (fail, got))
         ctx.check(not problems, rule, b.path, "api-forward[%s]" % ("all-ok" if fail is None else fail + "-fails"),
                   "%s -> %s after %s; %s%s" % (handler, got, log, "; ".join(problems) or "forwards the request's own fields and reports the outcome", (" (" + why + ")") if why and problems else ""), b.sp)
+
+
+def check_stream_forwarder(ctx, rule, handler, req_adt, step):
+    """a streaming handler `handler(req, reply)`: the forwarded call carries the request's fields and the caller's reply channel;
+    when it fails, the failure is sent into the reply channel (the caller must not see a cleanly ending, empty stream)"""
+    f = ctx.facts
+    b = f.body(API + handler)
+    ctx.touch(*f.family(b.path))
+    meth = step.split("(")[0]
+    for fail in (None, meth):
+        got, log = eval_handler(f, handler, req_adt, fail, extra_args=("reply",))
+        calls = [c for c, _ in log]
+        problems = []
+        if got.startswith("UNSUPPORTED"):
+            problems.append(got)
+        elif fail is None:
+            if calls != [step]:
+                problems.append("forwards %s, expected %s" % (calls, [step]))
+        else:
+            if calls[:1] != [step] or len(calls) != 2 or not calls[1].startswith("reply.send(Err("):
+                problems.append("with %s failing: %s, expected the call followed by the error sent to the caller" % (fail, calls))
+        ctx.check(not problems, rule, b.path, "api-forward[%s]" % ("all-ok" if fail is None else fail + "-fails"),
+                  "%s -> %s after %s; %s" % (handler, got, log, "; ".join(problems) or "forwards the request's own fields and the caller's channel, reports a failure into it"), b.sp)
+
+
+# ------------------------------------------------------------------------------------------------------------------
+# the client side of the RPC layer (src/api.rs): a method of Doc / DocsApi evaluated with its parameters as named tokens
+def eval_client(f, path):
+    """returns (rendered result, [(rpc kind, rendered request)])"""
+    from . import feval as E, coll
+    b = f.body(path)
+    sent = []
+    C = coll.Collections(f)
+
+    def oracle(kind, name, payload, site):
+        if kind == "await":
+            return E.Ok(E.Ok(E.Tok("response"))) if str(name).startswith("fut:rpc") else None
+        if kind != "call":
+            return None
+        t, args, it = payload
+        names = [it.tokname(a).strip("&*") for a in args]
+        full = (t["f"].get("full") or "") + (t["f"].get("path") or "")
+        if name in ("rpc", "server_streaming", "client_streaming", "bidi_streaming", "notify") and "irpc" in full:
+            sent.append((name, E.describe(it.resolve(args[1]), f)))
+            return E.Tok("fut:rpc")
+        if name == "ensure_open":
+            return E.Ok(E.UNIT)
+        if name in ("as_ref", "to_vec", "into", "to_owned", "from", "to_bytes", "copy_from_slice") and names and names[0].startswith("arg."):
+            return args[0]     # conversions of a parameter into the field's type carry the value
+        return C.handle(kind, name, payload, site)
+    is_doc = path.startswith("api::Doc::")
+    heap = {"self": E.struct(f, "api::Doc", inner=E.Tok("client"), namespace_id=E.Tok("self.doc"), closed=E.Tok("closed"))} if is_doc else {"self": E.Tok("api")}
+    args = [E.href("self")] + [E.Tok("arg." + (b.local_name(i) or "p%d" % i)) for i in range(2, b.rec["argc"] + 1)]
+    try:
+        if b.rec.get("is_async"):
+            ret, hp, evs = E.run_async(f, path, args, heap, oracle)
+        else:
+            ret, hp, evs = E.run(f, path, args, heap, oracle)
+        return E.describe(ret, f), sent
+    except E.Unsupported as e:
+        return "UNSUPPORTED-FORM: %s" % e, sent
+
+
+def check_client(ctx, rule, method, request, doc_from="self.doc"):
+    """`method` (api::Doc::x or api::DocsApi::x) sends exactly one `request`, naming its own document (`doc_from`), every other
+    field holding one of its own parameters (each at most once, no constants)"""
+    import re
+    f = ctx.facts
+    b = f.body(method)
+    ctx.touch(b)
+    got, sent = eval_client(f, method)
+    fields = [x["name"] for x in f.adt(PROTO + request)["variants"][0]["fields"]]
+    ok = len(sent) == 1 and got.startswith("Ok(")
+    detail = ""
+    if ok:
+        m = re.fullmatch(r"%s(?:\((.*)\))?" % request, sent[0][1])
+        ok = bool(m)
+        if m:
+            vals = m.group(1).split(",") if m.group(1) else []
+            pairs = dict(zip(fields, vals))
+            docs = [v for v in vals if v == doc_from]
+            rest = [v for v in vals if v != doc_from]
+            ok = len(vals) == len(fields) and len(docs) == 1 and all(re.fullmatch(r"arg\.[\w.]+", v) for v in rest) and len(set(rest)) == len(rest)
+            detail = "fields %s" % pairs
+    ctx.check(ok, rule, method, "client-sends[%s]" % request,
+              "evaluated with its parameters as arg.*: sends %s, returns %s; %s; spec: one %s naming its own document (%s), each other field one of its own parameters" % (sent, got[:120], detail, request, doc_from), b.sp)
